@@ -176,11 +176,14 @@ func c06Cfgs(thorough bool, mode string) []c06Cfg {
 			cfgs = append(cfgs, c06Cfg{Keys: intKeys(4), Consts: []string{"0", "5", "2.5", "'x'"}, Updates: true, EPN: e.epn, Cache: e.cache, Mode: mode})
 		}
 		cfgs = append(cfgs, c06Cfg{Keys: []string{"-1", "2", "2.5", "'a'", "'b'", "x'00'"}, Consts: []string{"-5", "2.2", "'aa'", "x''", "x'01'"}, EPN: 2, Mode: mode})
+		cfgs = append(cfgs, c06Cfg{Keys: intKeys(4), Consts: []string{"0", "5", "2.5", "'x'"}, Updates: true, EPN: 2, NotNull: true, Mode: mode})
 		return cfgs
 	}
 	for _, e := range []ec{{2, 0}, {2, 100}, {3, 0}, {4, 0}, {4, 100}, {4096, 0}, {4096, 100}} {
 		cfgs = append(cfgs, c06Cfg{Keys: intKeys(5), Consts: []string{"0", "6", "2.5", "'x'"}, Updates: true, EPN: e.epn, Cache: e.cache, Mode: mode})
 	}
+	cfgs = append(cfgs, c06Cfg{Keys: intKeys(5), Consts: []string{"0", "6", "2.5", "'x'"}, Updates: true, EPN: 2, NotNull: true, Mode: mode})
+	cfgs = append(cfgs, c06Cfg{Keys: intKeys(5), Consts: []string{"0", "6", "2.5", "'x'"}, Updates: true, EPN: 4096, Cache: 100, NotNull: true, Mode: mode})
 	for _, e := range []ec{{2, 0}, {3, 0}} {
 		cfgs = append(cfgs, c06Cfg{Keys: []string{"0", "1", "2", "3", "4", "5", "6", "7", "8"}, Consts: []string{"-1", "9", "3.5", "'x'"}, EPN: e.epn, Cache: e.cache, Mode: mode})
 	}
@@ -221,10 +224,11 @@ func c06Run(r *engine.Run, mode string) int {
 }
 
 type c06World struct {
-	w   *engine.World
-	c   *engine.Client
-	cfg c06Cfg
-	t   int
+	cols string
+	w    *engine.World
+	c    *engine.Client
+	cfg  c06Cfg
+	t    int
 }
 
 func c06Open(cfg c06Cfg) (*c06World, error) {
@@ -244,7 +248,7 @@ func c06Open(cfg c06Cfg) (*c06World, error) {
 	if err := c.Exec("create table nat(" + ncols + ") without rowid"); err != nil {
 		panic(err)
 	}
-	return &c06World{w: w, c: c, cfg: cfg, t: 1000}, nil
+	return &c06World{w: w, c: c, cfg: cfg, t: 1000, cols: cols}, nil
 }
 
 // apply runs one mutation on both tables and compares the outcome class and affected-row count.
@@ -382,7 +386,7 @@ func c06Worker(raw json.RawMessage) *engine.Result {
 	res.Trans += len(qs)
 	// fresh connection re-opening the table from the bucket alone
 	f := x.w.NewClient("fresh")
-	if err := f.Create(engine.TableOpts{EPN: cs.Cfg.EPN, Cache: cs.Cfg.Cache}); err != nil {
+	if err := f.Create(engine.TableOpts{Columns: x.cols, EPN: cs.Cfg.EPN, Cache: cs.Cfg.Cache}); err != nil {
 		res.Violate("reopen-failed", "fresh connection cannot open the table: %v [%s]", err, where)
 	} else {
 		c06Compare(res, f, "{T}", qs, native, nerrs, "fresh", where)
